@@ -8,6 +8,7 @@ import (
 	"time"
 
 	"verif/lab/forge"
+	"verif/lab/gen"
 	"verif/lab/harness"
 	"verif/lab/orch"
 )
@@ -45,7 +46,12 @@ func c01Forge(j *orch.Job, r *orch.Result) error {
 	if upto < e.PIP10+8 {
 		upto = e.PIP10 + 8
 	}
-	_, meta, final, err := ForgeChain(ForgeOpts{Profile: "ties", Seed: p.Seed, Eras: e, Upto: upto, ShortAvg: 12, Ties: true, Dir: p.Dir, KeepDB: true})
+	_, meta, final, err := ForgeChain(ForgeOpts{Profile: "ties", Seed: p.Seed, Eras: e, Upto: upto, ShortAvg: 12, Ties: false, Dir: p.Dir, KeepDB: true,
+		Customize: func(m *gen.Mixed) {
+			ts := gen.AddTies(m, p.Seed)
+			// the whale leaves before 2.0 so that the tied group is the TOP stake (the dust recipient is decided among ties)
+			featWhaleExit(m, ts, &modelParams{Seed: p.Seed})
+		}})
 	if err != nil {
 		return err
 	}
@@ -77,6 +83,27 @@ func c01Forge(j *orch.Job, r *orch.Result) error {
 	db.QueryRow(`SELECT COUNT(*) FROM pn_bank WHERE total_requested > bank_amount`).Scan(&bankOver)
 	var bigBlocks int64
 	db.QueryRow(`SELECT COUNT(*) FROM (SELECT height FROM pn_history_txbatch WHERE blockorder > 100 GROUP BY height)`).Scan(&bigBlocks)
+	// ties for the TOP stake: at a paying snapshot at least two holders within a few units of the largest payout
+	trows, err := db.Query(`SELECT b.height, MAX(t.to_amount), COUNT(*) FROM pn_history_transaction t JOIN pn_history_txbatch b ON b.entry_hash = t.entry_hash
+		WHERE b.height % 144 = 0 AND t.action_type = 3 AND hex(substr(t.entry_hash,1,16)) = '00000000000000000000000000000000' GROUP BY b.height`)
+	if err == nil {
+		type hm struct{ h, mx, n int64 }
+		var l []hm
+		for trows.Next() {
+			var x hm
+			trows.Scan(&x.h, &x.mx, &x.n)
+			l = append(l, x)
+		}
+		trows.Close()
+		for _, x := range l {
+			var k int64
+			db.QueryRow(`SELECT COUNT(*) FROM pn_history_transaction t JOIN pn_history_txbatch b ON b.entry_hash = t.entry_hash
+				WHERE b.height = ? AND t.action_type = 3 AND hex(substr(t.entry_hash,1,16)) = '00000000000000000000000000000000' AND t.to_amount >= ?`, x.h, x.mx-x.n-1).Scan(&k)
+			if k >= 2 {
+				r.Count("snapshots_with_tied_top_stake", 1)
+			}
+		}
+	}
 	r.Count("tie_groups", int64(tieGroups))
 	r.Count("paid_snapshots", paidSnapshots)
 	r.Count("staking_rows", stakers)
@@ -223,6 +250,7 @@ func checkC01(c *Ctx) *orch.Outcome {
 	o.Extra["max_distinct_dump_hashes_per_chain"] = maxDistinct
 	o.Extra["measured_tie_groups"] = orch.SumCounter(fr, "tie_groups")
 	o.Extra["paid_snapshots"] = orch.SumCounter(fr, "paid_snapshots")
+	o.Extra["snapshots_with_tied_top_stake"] = orch.SumCounter(fr, "snapshots_with_tied_top_stake")
 	o.Extra["bank_oversubscribed_rows"] = orch.SumCounter(fr, "bank_oversubscribed_rows")
 	o.Extra["big_tx_blocks"] = orch.SumCounter(fr, "big_tx_blocks")
 	o.Extra["blocks_per_chain_total"] = orch.SumCounter(fr, "blocks")
